@@ -5,8 +5,10 @@ Interface: see props/c13.py.  A case is
 where T is the type description understood by internal/verifdrv.Shape and D the abstract document
 (tagged lists: ["n"] null, ["b",bool], ["num",token], ["s",str], ["a",[..]], ["o",[[k,D]..]]).
 """
+import hashlib
 import json
 import math
+import os
 
 import vlib
 from vlib import cZ, cbool, clist, copt, cpair, run_driver
@@ -60,7 +62,13 @@ RULE = ("struct shapes of 1-6 fields over bool/int8..int64/int/uint8..uint64/uin
         "UnmarshalJson{Bytes,Reader,Map}, UnmarshalYaml{Bytes,Reader}, httpx.ParseJsonBody, each compared with the same call "
         "in the mapping driver's process); 20% of the fully tagged ordinary cases also go through httpx.Parse as the JSON "
         "body of a POST/PUT/PATCH/DELETE/OPTIONS request (GET/HEAD without body); round trips use every method; integer "
-        "literals up to 2^64-1 and down to -2^63 are in the YAML and conf-YAML variants; a fixed directed set "
+        "literals up to 2^64-1 and down to -2^63 are in the YAML and conf-YAML variants; options= near-misses (other letter case, "
+        "surrounding blanks, prefix, superstring; numbers by their text) on the JSON, YAML, `,string`, string-mode, form/header "
+        "and env= routes (fixed set + mixed stream); 7% 'inherit' cases (a section declared at the top and tagged inherit "
+        "in a child and a grandchild: written in full, in part, as a scalar, or left out); 6% + 17 fixed env= cases; JSON "
+        "documents of exactly 4095, 4096, 4097, 5000, 65536 and 1048576 bytes (bytes / reader / one-byte reader / YAML / "
+        "httpx.Parse body) and round trips with bodies of 4 KiB..1 MiB in every run (long strings compared by SHA-1); "
+        "a fixed directed set "
         "(D1/D9 reproductions, tag-option clauses) is part of every run; non-trivial = the document sets at least one "
         "field and is not the directed prefix only; distinct = distinct canonical case JSON")
 TRUSTED = ["encoding/json tokenisation with UseNumber, yaml.v2 scalar resolution, reflect (Set*, Overflow*, StructOf)",
@@ -97,6 +105,12 @@ ASSUMPTIONS = [
     "because GetFormValues drops empty values (c05_roundtrip_form_zero: finding candidate); every other member kind/part/"
     "default combination round-trips and is generated",
     "Marshal model: fmt.Sprint modelled for ints, bools, strings (options=/`string` on other kinds: outside)",
+    "inherit: HEAD MERGES nested sections (child entries win, the enclosing section's entries for keys the child lacks are "
+    "added) -- pinned as the reference (Model.inh_lookup, c05_inherit); a child's nested section is therefore not 'as "
+    "written' when the parent has the same section",
+    "env=: int64 / Duration members go through time.ParseDuration (reflect.Int64 == durationType.Kind()) -- not modelled, "
+    "not generated; POINTER members with env= panic on HEAD when the variable is set (finding; C05_ENV_POINTERS=1 "
+    "puts them back into the stream once repaired)",
     "observation: an untagged member of a request struct is claimed by every part of httpx.Parse (path first), so "
     "Parse fails on it for any method; the JSON-body comparison uses fully tagged shapes",
     "c05_roundtrip (httpc.buildRequest -> httpx.Parse): correspondence only (12% of the cases: request structs with "
@@ -124,10 +138,10 @@ def P(k):
     return {"k": k}
 
 
-def mkopts(optional=False, default=None, options=None, rng=None, string=False, dep=None):
-    """dep: None | (negated, key) for optional=key / optional=!key (implies optional)"""
+def mkopts(optional=False, default=None, options=None, rng=None, string=False, dep=None, inherit=False, env=None):
+    """dep: None | (negated, key) for optional=key / optional=!key (implies optional); env: variable name (tag only)"""
     return {"optional": optional or dep is not None, "default": default, "options": options or [], "range": rng,
-            "string": string, "dep": dep}
+            "string": string, "dep": dep, "inherit": inherit, "env": env}
 
 
 def render_tag(key, o, tagged=True):
@@ -147,6 +161,10 @@ def render_tag(key, o, tagged=True):
         segs.append("range=%s%s:%s%s" % ("[" if li else "(", "" if l is None else l, "" if r is None else r, "]" if ri else ")"))
     if o["string"]:
         segs.append("string")
+    if o.get("inherit"):
+        segs.append("inherit")
+    if o.get("env"):
+        segs.append("env=" + o["env"])
     return 'json:"%s"' % ",".join(segs)
 
 
@@ -197,7 +215,7 @@ def gen_prim_opts(rng, k, in_opt_anon=False):
         if k == "bool":
             o["options"] = ["true"]
         elif k == "str":
-            o["options"] = rng.choice([["a", "b", "abc"], ["abc"], ["dflt", "a", "5"]])
+            o["options"] = rng.choice([["a", "b", "abc"], ["abc"], ["dflt", "a", "5"], ["dev", "test", "prod"], ["Info", "warn"]])
         else:
             o["options"] = rng.choice([["1", "2", "3"], ["5", "77"], ["0", "5", "300"]])
     if k in INT_KINDS and rng.random() < 0.25:
@@ -324,6 +342,12 @@ def deref(t):
     return t["e"] if t["k"] == "ptr" else t
 
 
+def near_miss(rng, opt):
+    """a value that differs from a declared option only in letter case, by surrounding blanks, or is a prefix / superstring"""
+    return rng.choice([opt.upper(), opt.capitalize(), opt.swapcase(), " " + opt, opt + " ", " " + opt + " ", opt[:-1], opt + "x",
+                       "x" + opt, opt + opt, opt + "\t"])
+
+
 def gen_scalar(rng, k, o, lenient, good=True):
     """well-typed scalar for kind k. lenient: text coercions are accepted at this position (slice/map elems, string option)."""
     if k == "bool":
@@ -333,6 +357,8 @@ def gen_scalar(rng, k, o, lenient, good=True):
             return rng.choice([S("true"), S("0"), N(1), N(0), S("FALSE")])
         return ["b", rng.random() < 0.5]
     if k == "str":
+        if o and o["options"] and not good and rng.random() < 0.5:
+            return S(near_miss(rng, rng.choice(o["options"])))
         if o and o["options"] and rng.random() < 0.8:
             return S(rng.choice(o["options"]))
         return S(rng.choice(STRS))
@@ -771,6 +797,29 @@ def directed(rng):
     one({"k": "slice", "e": P("int")}, None, O([("v", S("null"))]), "fromstring")
     one({"k": "slice", "e": P("int")}, None, O([("v", S("[]"))]), "fromstring")
     one({"k": "slice", "e": P("int")}, None, O([("v", S("abc"))]), "fromstring")
+    # options= are exact: letter case, blanks, prefixes, superstrings -- JSON, YAML, `,string`, form/path/header mode
+    env3 = ["dev", "test", "prod"]
+    for v in ("DEV", "Prod", " dev", "dev ", "de", "devel", "dev\t", "prod", "test"):
+        one(P("str"), mkopts(options=env3), O([("v", S(v))]), "options-exact")
+        out[-1]["strmode"] = True
+    for v in ("DEV", " dev", "devx", "dev"):
+        one({"k": "ptr", "e": P("str")}, mkopts(options=env3, optional=True), O([("v", S(v))]), "options-exact")
+        one(P("str"), mkopts(options=env3, string=True), O([("v", S(v))]), "options-exact")
+    for tok in ("1", "10", "100", "1.0", "1e0", "-1", "01"):
+        if tok != "01":
+            one(P("int"), mkopts(options=["1", "10"]), O([("v", N(tok))]), "options-exact")
+        one(P("int"), mkopts(options=["1", "10"], string=True), O([("v", S(tok))]), "options-exact")
+        one(P("int"), mkopts(options=["1", "10"]), O([("v", S(tok + " "))]), "options-exact")
+        out[-1]["strmode"] = True
+    for v in ("true", "True", "TRUE", "1", " true"):
+        one(P("bool"), mkopts(options=["true"], string=True), O([("v", S(v))]), "options-exact")
+    # a proper prefix / superstring of a numeric option, by the number's text
+    for tok in ("1", "2", "10", "100", "250", "25"):
+        one(P("int"), mkopts(options=["10", "25"]), O([("v", N(tok))]), "options-exact")
+        one({"k": "ptr", "e": P("uint16")}, mkopts(options=["10", "25"]), O([("v", N(tok))]), "options-exact")
+        one(P("int"), mkopts(options=["10", "25"], string=True), O([("v", N(tok))]), "options-exact")
+    for tok in ("1.5", "1", "15", "1.50"):
+        one(P("f64"), mkopts(options=["1.5", "2"]), O([("v", N(tok))]), "options-exact")
     # integer literals at and beyond the int64 edge: JSON, YAML and conf (JSON + YAML) must agree, never a wrapped number
     for k in ("int64", "int", "uint64", "f64", "uint", "str"):
         for tok in ("9223372036854775807", "9223372036854775808", "18446744073709551615", "-9223372036854775808"):
@@ -1130,6 +1179,159 @@ def hist_pairs(case, obs):
     return out
 
 
+# ----------------------------------------------------------------------------- inherit with nested sections
+def inherit_case(rng):
+    """a section (tls) declared at the top and again, tagged inherit, inside a nested struct (and its child): the child
+    writes the whole section, a part of it, a scalar in its place, or nothing; scalars are inherited too"""
+    def tls(extra=False):
+        fs = [field("C", "cert", P("str")), field("K", "key", P("str"), mkopts(optional=True)),
+              field("M", "min", P("int"), mkopts(default="12"))]
+        if extra:
+            fs.append(field("X", "ciphers", {"k": "slice", "e": P("str")}, mkopts(optional=True)))
+        return struct(fs)
+    extra = rng.random() < 0.4
+    inh = lambda **kw: mkopts(inherit=True, **kw)
+    grand = struct([field("T", "tls", tls(extra), inh()), field("N", "name", P("str"), inh(optional=rng.random() < 0.5))])
+    child_fs = [field("T", "tls", tls(extra), inh(optional=rng.random() < 0.3)), field("N", "name", P("str"), inh()),
+                field("O", "timeout", P("int"), inh(optional=True))]
+    if rng.random() < 0.5:
+        child_fs.append(field("G", "sub", grand, mkopts(optional=rng.random() < 0.5)))
+    if rng.random() < 0.3:
+        child_fs.append(field("L", "peers", {"k": "slice", "e": struct([field("T", "tls", tls(extra), inh(optional=True))])}, mkopts(optional=True)))
+    shape = struct([field("T", "tls", tls(extra), mkopts(optional=rng.random() < 0.2)), field("N", "name", P("str"), mkopts(optional=rng.random() < 0.3)),
+                    field("O", "timeout", P("int"), mkopts(optional=True)), field("R", "rpc", struct(child_fs), mkopts(optional=rng.random() < 0.2))])
+
+    def section(full):
+        pairs = []
+        if full or rng.random() < 0.7:
+            pairs.append(("cert", S(rng.choice(["pc", "cc", "gc"]))))
+        if rng.random() < (0.8 if full else 0.35):
+            pairs.append(("key", S(rng.choice(["pk", "ck"]))))
+        if rng.random() < (0.8 if full else 0.35):
+            pairs.append(("min", N(rng.choice([10, 11, 13]))))
+        if extra and rng.random() < 0.4:
+            pairs.append(("ciphers", A([S("a")])))
+        return O(pairs)
+
+    def maybe_section():
+        r = rng.random()
+        if r < 0.55:
+            return [("tls", section(False))]
+        if r < 0.65:
+            return [("tls", section(True))]
+        if r < 0.72:
+            return [("tls", rng.choice([S("x"), N(1), NULL, A([]), O([])]))]
+        return []
+    top = ([("tls", section(rng.random() < 0.7))] if rng.random() < 0.9 else []) + ([("name", S("top"))] if rng.random() < 0.85 else [])
+    if rng.random() < 0.5:
+        top.append(("timeout", N(5)))
+    rpc = maybe_section() + ([("name", S("child"))] if rng.random() < 0.3 else []) + ([("timeout", N(9))] if rng.random() < 0.2 else [])
+    if any(f["key"] == "sub" for f in child_fs) and rng.random() < 0.8:
+        rpc.append(("sub", O(maybe_section() + ([("name", S("grand"))] if rng.random() < 0.3 else []))))
+    if any(f["key"] == "peers" for f in child_fs) and rng.random() < 0.7:
+        rpc.append(("peers", A([O(maybe_section()) for _ in range(rng.randint(1, 2))])))
+    if rng.random() < 0.9:
+        top.append(("rpc", O(rpc)))
+    rng.shuffle(top)
+    return mkcase(rng, shape, O(top), ["inherit"], with_conf=False)
+
+
+# ----------------------------------------------------------------------------- env= members
+_ENV_SEQ = [0]
+ENV_POINTERS = os.environ.get("C05_ENV_POINTERS") == "1"
+
+
+def env_case(rng):
+    """a one-member struct whose member reads an environment variable (fresh name: proc.Env remembers values)"""
+    _ENV_SEQ[0] += 1
+    name = "C05E_%d_%d_%d" % (os.getpid(), rng.randrange(10 ** 9), _ENV_SEQ[0])
+    k = rng.choice(["str", "str", "int", "uint8", "int32", "bool"])
+    # ENV_POINTERS: a pointer member with env= PANICS on HEAD when the variable is set (processFieldWithEnvValue does not
+    # allocate it: `*int json:"v,env=X"`, X=300 -> reflect.Value.OverflowInt on zero Value).  Reported; switch on once repaired.
+    t = P(k) if (not ENV_POINTERS or rng.random() < 0.8) else {"k": "ptr", "e": P(k)}
+    o = mkopts(optional=rng.random() < 0.5)
+    if k == "str":
+        o["options"] = rng.choice([["dev", "test", "prod"], ["Info", "warn"], []])
+        base = rng.choice(o["options"] or ["abc"])
+        val = rng.choice([base, base, near_miss(rng, base)])
+    elif k == "bool":
+        val = rng.choice(["true", "false", "1", "0", "TRUE", "yes", " true"])
+    else:
+        if rng.random() < 0.5:
+            o["options"] = ["1", "10"]
+        if rng.random() < 0.4:
+            o["range"] = (1, True, 50, True)
+        val = rng.choice(["1", "10", "100", "1 ", "01", "300", "7", "-1", "1.0"])
+    key = "v"
+    tag_o = dict(o)
+    tag_o["env"] = name
+    f = field("V", key, t, o)
+    f["tag"] = render_tag(key, tag_o)
+    c = mkcase(rng, struct([]), O([]), ["env"], with_yaml=False, with_conf=False)
+    c["env"] = {"name": name, "value": val}
+    c["env_shape"] = struct([f])
+    return c
+
+
+def env_fixed(rng):
+    """options= on the env route, in every run: letter case, blanks, prefix, superstring; numbers by their text"""
+    out = []
+
+    def mk(k, o, val):
+        _ENV_SEQ[0] += 1
+        name = "C05E_%d_%d_%d" % (os.getpid(), rng.randrange(10 ** 9), _ENV_SEQ[0])
+        tag_o = dict(o)
+        tag_o["env"] = name
+        f = field("V", "v", P(k), o)
+        f["tag"] = render_tag("v", tag_o)
+        c = mkcase(rng, struct([]), O([]), ["env", "fixed"], with_yaml=False, with_conf=False)
+        c["env"] = {"name": name, "value": val}
+        c["env_shape"] = struct([f])
+        out.append(c)
+    for val in ("dev", "DEV", "Prod", " dev", "dev ", "de", "devel"):
+        mk("str", mkopts(options=["dev", "test", "prod"]), val)
+    for val in ("10", "1", "2", "100", "25 ", "025"):
+        mk("int", mkopts(options=["10", "25"]), val)
+    mk("int32", mkopts(rng=(1, True, 50, True)), "51")
+    mk("uint8", mkopts(), "256")
+    return out
+
+
+# ----------------------------------------------------------------------------- the size dimension
+BIG_SIZES = [4095, 4096, 4097, 5000, 65536, 1 << 20]
+
+
+def big_case(rng, size):
+    """a JSON document of exactly `size` bytes: bytes vs reader vs one-byte reader vs YAML vs httpx.Parse body"""
+    shape = struct([field("H", "head", P("int")), field("P", "pad", P("str")), field("L", "list", {"k": "slice", "e": P("int")}, mkopts(optional=True)),
+                    field("T", "tail", P("str"))])
+    lst = [N(rng.randint(0, 99999)) for _ in range(min(2000, size // 12))]
+    doc = O([("head", N(7)), ("list", A(lst)), ("pad", S("")), ("tail", S("end-" + str(size)))])
+    room = size - len(to_json(doc))
+    if room < 0:
+        doc = O([("head", N(7)), ("pad", S("")), ("tail", S("e"))])
+        room = size - len(to_json(doc))
+    alphabet = "abcdefghijklmnopqrstuvwxyz0123456789 -_."
+    doc[1][[kv[0] for kv in doc[1]].index("pad")][1] = S("".join(rng.choice(alphabet) for _ in range(room)))
+    assert len(to_json(doc)) == size
+    c = mkcase(rng, shape, doc, ["big", str(size)], with_conf=False)
+    c["readers"] = True
+    c["jsonbody"] = rng.choice(["POST", "PUT", "PATCH", "DELETE", "OPTIONS"])
+    return c
+
+
+def big_rt_case(rng, size):
+    """the httpc -> httpx round trip of a request whose JSON body is about `size` bytes"""
+    c = mkcase(rng, struct([]), O([]), ["roundtrip", "big"], with_yaml=False, with_conf=False)
+    alphabet = "abcdefghijklmnopqrstuvwxyz0123456789 -_."
+    pad = "".join(rng.choice(alphabet) for _ in range(size))
+    fs = [field("J0", "pad", P("str")), field("J1", "n", P("int")), field("Q0", "q", P("str"))]
+    fs[2]["tag"] = part_tag("form", "q", mkopts())
+    c.update({"rt": True, "rt_shape": struct(fs), "value": ["st", [["s", pad], ["i", "7"], ["s", "x"]]],
+              "method": rng.choice(["POST", "PUT", "DELETE"]), "pattern": "/api/big"})
+    return c
+
+
 # ----------------------------------------------------------------------------- direct Marshal (lib/mapping/marshaler.go)
 def marshal_case(rng):
     """a request-like struct value through mapping.Marshal; 30% carry one member that validation must reject"""
@@ -1310,6 +1512,11 @@ def generate(rng, tier, n):
         for tpl in rng.sample(tpls, 8):          # small dedicated stream of known findings (classified, never new)
             cases.append(known_case(rng, tpl))
         cases.extend(direct_fixed(rng))
+        cases.extend(env_fixed(rng))
+        for size in BIG_SIZES:                      # the size dimension: every size in every run (1 MB once)
+            cases.append(big_case(rng, size))
+        cases.append(big_rt_case(rng, rng.choice([4096, 4097, 65536])))
+        cases.append(big_rt_case(rng, 1 << 20))
         ns = numstr_cases(rng)                   # systematic from-string numerics: all in the thorough tier
         cases.extend(ns if tier == "thorough" else rng.sample(ns, 60))
     depth = 2
@@ -1336,6 +1543,12 @@ def generate(rng, tier, n):
         if r0 < 0.57:
             cases.append(hist_case(rng))
             continue
+        if r0 < 0.64:
+            cases.append(inherit_case(rng))
+            continue
+        if r0 < 0.70:
+            cases.append(env_case(rng))
+            continue
         shape = gen_struct(rng, depth)
         r = rng.random()
         mode = "good" if r < 0.7 else "mixed"
@@ -1351,12 +1564,13 @@ def generate(rng, tier, n):
 
 
 def search(rng, problems):
-    return directed(rng) + direct_fixed(rng)
+    return directed(rng) + direct_fixed(rng) + env_fixed(rng)
 
 
 def drive(cases, tier):
     m_in = [{"shape": c["shape"], "json": c["json"], "yaml": c["yaml"], "strmode": bool(c.get("strmode")),
-             "float": c.get("float", ""), "marshal": c.get("marshal"), "readers": bool(c.get("readers"))} for c in cases]
+             "float": c.get("float", ""), "marshal": c.get("marshal"), "readers": bool(c.get("readers"))} if not c.get("env") else
+            {"shape": c["env_shape"], "json": "{}", "yaml": "", "env": c["env"]} for c in cases]
     c_in = [{"shape": c["shape"], "conf": c["conf"], "cyaml": c.get("cyaml", ""), "keys": c["keys"], "hist": c.get("hist") or []} for c in cases]
     mo, log1 = run_driver("./lib/mapping", m_in, name="C05m_" + tier, timeout=DRIVER_TIMEOUT)
     if mo is None:
@@ -1376,11 +1590,13 @@ def drive(cases, tier):
     for a, b, r in zip(mo, co, ro):
         if "error" in a or "error" in b or "error" in r:
             return None, "driver error: %r %r %r" % (a, b, r)
+        if "e" in a and "j" not in a:
+            a["j"] = {"r": "ok", "v": ["st", []]}          # env case: the ordinary run is not made
         if "error" in (a.get("m") or {}):
             return None, "driver error (marshal): %r" % (a["m"],)
         obs.append({"j": a["j"], "y": a.get("y"), "c": b.get("c"), "cy": b.get("cy"), "camel": b["camel"],
                     "rt": r if (r and "d" not in r) else None,
-                    "s": a.get("s"), "f": a.get("f"), "m": a.get("m"), "rd": a.get("rd"), "d": (r or {}).get("d"), "hist": b.get("hist")})
+                    "s": a.get("s"), "f": a.get("f"), "m": a.get("m"), "rd": a.get("rd"), "d": (r or {}).get("d"), "hist": b.get("hist"), "e": a.get("e")})
     # known findings: which single unenforced clause (if any) is the sole reason spec_ok fails -- decided in Coq
     idx = [i for i, c in enumerate(cases) if c["label"][0] == "known"]
     if idx:
@@ -1438,8 +1654,9 @@ def c_opts(o):
     dep = None
     if o.get("dep"):
         dep = cpair(cbool(o["dep"][0]), cstr(o["dep"][1]))
-    return "(mkopts %s %s %s %s %s %s)" % (cbool(o["optional"]), copt(None if o["default"] is None else cstr(o["default"])),
-                                           clist([cstr(x) for x in o["options"]]), copt(rg), cbool(o["string"]), copt(dep))
+    return "(mkopts %s %s %s %s %s %s %s)" % (cbool(o["optional"]), copt(None if o["default"] is None else cstr(o["default"])),
+                                              clist([cstr(x) for x in o["options"]]), copt(rg), cbool(o["string"]), copt(dep),
+                                              cbool(bool(o.get("inherit"))))
 
 
 def c_ty(t):
@@ -1528,6 +1745,11 @@ def c_yv(d):
     return "(YMap %s)" % clist([cpair(cstr(kv[0]), c_yv(kv[1])) for kv in d[1]])
 
 
+def digest(x):
+    """strings beyond 300 bytes are compared by length and SHA-1 (size-dimension cases carry up to 1 MB)"""
+    return x if len(x) <= 300 else "sha1:%s:%d" % (hashlib.sha1(x.encode()).hexdigest(), len(x))
+
+
 def c_val(v):
     k = v[0]
     if k == "b":
@@ -1537,7 +1759,7 @@ def c_val(v):
     if k == "f":
         return "(VFloat %s true)" % cstr(v[1])
     if k == "s":
-        return "(VStr %s)" % cstr(v[1])
+        return "(VStr %s)" % cstr(digest(v[1]))
     if k == "np":
         return "VNilPtr"
     if k == "p":
@@ -1613,14 +1835,24 @@ def encode(case, obs):
         else:
             prs = clist([cpair(cstr(p["k"]), clist([c_jv(["s", v]) for v in p["v"]])) for p in d["pairs"]])
             di = cpair("(DForm %s %s)" % (c_ty(case["direct_shape"]), prs), c_obs(obs["d"]))
-    return "(mkcase %s %s %s %s %s %s %s %s %s %s %s %s %s)" % (
+    en = None
+    if case.get("env") and obs.get("e") is not None:
+        f = case["env_shape"]["f"][0]
+        en = cpair(c_ty(f["t"]), c_opts(f["o"]), cstr(case["env"]["value"]), c_obs(obs["e"]))
+    if case["label"][0] == "big":
+        # the size dimension is about transport, not about the model: only the "must agree" pairs are kept
+        if obs.get("y") is not None:
+            prs.append((obs["j"], obs["y"]))
+        rd = clist([cpair(c_obs(a), c_obs(b)) for a, b in prs])
+        return "(mkcase (Struct []) (JObj []) (OOk (VStruct [])) None None [] false None None [] None %s None None)" % rd
+    return "(mkcase %s %s %s %s %s %s %s %s %s %s %s %s %s %s)" % (
         c_ty(case["shape"]), c_jv(case["doc"]), c_obs(obs["j"]), copt(y), copt(c), keys,
-        cbool("outside" in case["label"]), copt(rt), copt(st), clist(fl), copt(ma), rd, copt(di))
+        cbool("outside" in case["label"]), copt(rt), copt(st), clist(fl), copt(ma), rd, copt(di), copt(en))
 
 
 # ----------------------------------------------------------------------------- evidence helpers
 def nontrivial(case, obs):
-    if case.get("rt") or case.get("float") or case.get("marshal") or case.get("direct"):
+    if case.get("rt") or case.get("float") or case.get("marshal") or case.get("direct") or case.get("env"):
         return True
     return "directed" not in case["label"] and "outside" not in case["label"] and len(case["doc"][1]) > 0
 
@@ -1631,6 +1863,10 @@ def bucket(case, obs):
         return ["stream:float"] + ["float%s:%s" % (b, "ok" if f[b]["j"] is not None else "rejected") for b in ("32", "64")]
     if case.get("marshal"):
         return ["stream:marshal", "marshal:" + obs["m"]["r"]]
+    if case.get("env"):
+        return ["stream:env", "env:" + obs["e"]["r"]]
+    if case["label"][0] == "big":
+        return ["stream:big", "big:" + case["label"][1], "big-json:" + obs["j"]["r"]]
     if case.get("direct"):
         d = case["direct"]
         out = ["stream:direct", "direct:" + d["kind"], "direct-" + d["kind"] + ":" + obs["d"]["r"]]
@@ -1696,6 +1932,15 @@ def explain(case, obs):
                 "bit pattern (Spec.json_yaml_float_agree): %s" % (case["float"], json.dumps(obs["f"])))
     if case.get("marshal"):
         return "mapping.Marshal panicked on %s" % json.dumps(case["marshal"]["value"])
+    if case.get("env"):
+        return ("env= member %s with %s=%r: the outcome %s is not the environment value exactly / not one of options= / outside range="
+                % (case["env_shape"]["f"][0]["tag"], case["env"]["name"], case["env"]["value"], json.dumps(obs["e"])[:300]))
+    if case["label"][0] == "big":
+        def brief(o):
+            return json.dumps(o)[:160]
+        return ("a JSON document of %s bytes: the bytes entry point, the reader entry points, the YAML equivalent and httpx.Parse of "
+                "the body do not all give the same outcome: bytes %s; readers %s; yaml %s; body %s"
+                % (case["label"][1], brief(obs["j"]), [brief(r[2]) for r in obs.get("rd") or []][:3], brief(obs.get("y")), brief(obs.get("d"))))
     if case.get("direct"):
         return ("httpx.Parse on a constructed %s request %s: a form value did not arrive unchanged / did not count as present, "
                 "or a header map with an empty / nil / multiple value list was not handled (error or slice): %s"
